@@ -257,4 +257,9 @@ example : ∃ t, Tokener.new 32 1 = some t ∧
     (parseEx refLibc t [91, 49, 101, 45, 53, 93]).offset = 6 := by
   refine ⟨_, rfl, ?_, ?_, ?_⟩ <;> decide
 
+
+/-- every source fact this property's model consumes was located in the current source by tools/extract (a fact that is not
+found is emitted with a placeholder value; this obligation then fails and the check uses the reference model) -/
+theorem source_facts_located_c03 : JsonC.Generated.factsFound_tok = true := by decide
+
 end JsonC.Tokener
